@@ -348,8 +348,34 @@ def gen_desc(seed, idx):
         ops.append({'t': rng.choice([1.5, 2.5, 3.5]), 'op': 'raw', 'node': 'raw0', 'dst': '*', 'src': 10, 'octets': wire.encode_npdu(apdu).hex()})
         ops.sort(key=lambda o: o['t'])
         faults = {'mode': 'explicit', 'list': [{'kind': 'drop', 'ord': 2}]}
-    return {'prop': 'C12', 'scenario': 'txn', 'seed': H(seed, 'C12run', idx) & 0x7fffffff, 'stacks': stacks,
+    # (drawn last so that every other description keeps its draws)
+    stale = False
+    if len(stacks) == 2 and faults.get('mode') == 'none' and rng.random() < 0.06:
+        # stale owner: the requester's ADDRESS was announced earlier by another device (since replaced) with other
+        # capabilities, and the requester itself never announces.  What the request header says (segmented-response-
+        # accepted, max segments) still bounds the answer: a cached record of the address must not override it.
+        iam = False
+        stale = True
+        stacks.append({'name': 'raw0', 'addr': 30, 'role': 'raw', 'spoofing': True})
+        if rng.random() < 0.7:
+            stacks[0]['seg'] = rng.choice(['noSegmentation', 'segmentedTransmit'])
+        if rng.random() < 0.7:
+            stacks[1]['seg'] = rng.choice(['segmentedBoth', 'segmentedTransmit'])
+        apdu = wire.unconf_req(0, wire.tag_objid(8, 2000) + wire.tag_uint(rng.choice(txngen.APDU_SIZES)) + wire.tag_enum(rng.choice([0, 2, 0, 2, 1, 3])) + wire.tag_uint(999))
+        ops.append({'t': 0.05, 'op': 'raw', 'node': 'raw0', 'dst': '*', 'src': 1, 'octets': wire.encode_npdu(apdu).hex()})
+        if rng.random() < 0.7:
+            ops.append({'t': 0.1, 'op': 'iam', 'node': 's0'})
+        big = [x for x in lens if x + 8 > caps[0]['maxApdu']] or lens
+        for op in ops:
+            if op['op'] == 'req' and op['c'] == 'c0' and rng.random() < 0.7:
+                op['rq'] = rng.choice([0, 3, 10])
+                op['rs'] = rng.choice(big)
+        ops.sort(key=lambda o: o['t'])
+    desc = {'prop': 'C12', 'scenario': 'txn', 'seed': H(seed, 'C12run', idx) & 0x7fffffff, 'stacks': stacks,
             'iam': iam, 'ops': ops, 'faults': faults, 'caps': {'frames': 40000, 'ticks': 600000}}
+    if stale:
+        desc['stale_owner'] = True
+    return desc
 
 
 def run_unit(unit):
@@ -360,6 +386,8 @@ def run_unit(unit):
         viols = check(h)
         agg.evals += 1
         agg.sim_seconds += h.w.sim_seconds
+        if d.get('stale_owner'):
+            agg.stat('probe.c12-stale-owner-history')
         for k, v in h.w.plan.counts.items():
             agg.stat('fault.' + k, v)
         for k, v in h.w.probes.items():
